@@ -113,8 +113,8 @@ def check(ctx):
                 st = [e for e in p.events if e.kind == "store" and any(xx == ind for xx in walk(e.data[0]))]
                 if len(st) == 1:
                     b, val = st[0].data[0], st[0].data[2]
-                    flat_c = b[0] == "call" and b[1] == ("attr", ind, "ravel") and not b[2] and not b[3]
-                    flat_f = b[0] == "call" and b[1][0] == "attr" and b[1][2] in ("ravel", "flatten") and (b[2] or b[3])
+                    flat_c = Q.ravel_of(b) == (ind, True)
+                    flat_f = Q.ravel_of(b) is not None and not Q.ravel_of(b)[1]
                     if val[0] == "comp" and val[3] == q and val[2][0] == "call" and callee(val[2]) == "numpy.unravel_index":
                         ok_fill = True if flat_c else (False if flat_f else None)
                         u = val[2]
